@@ -35,6 +35,9 @@
         kani::cover!(r, "integer string");
     }
 
+    // measured (fifth session): a Kani harness that calls write_escaped itself (safe string, recording sink) makes the Kani
+    // compiler panic (kani-compiler/src/intrinsics.rs:243, the same internal error as for anything reaching CodeGenerator):
+    // write_escaped statically reaches Value's Display and the JSON serializer. The choke point stays a native box.
 //# ob name=escape_choke_point_native role=native_bounded fn=utils::{write_escaped,write_with_html_escaping,HtmlEscape} kind=bounded bound="all strings of length 0..=5 over the alphabet {< > & \" ' / a é 1 -} (about 1.1*10^5 strings) in each of the reprs small-string / heap string (padded) / safe string, plus integers, floats, booleans, none, lists and maps containing them; AutoEscape::Html" stmt="the choke point writes every non-safe value HTML-escaped: the output contains none of < > \" ' raw and no & except as the head of an entity, and un-escaping it gives back the value's plain rendering; a safe string is written verbatim (never escaped a second time)"
     fn escape_choke_point_native() {
         fn unescape(s: &str) -> String {
